@@ -3285,38 +3285,13 @@ XPath::stepPattern(
 
             const XalanNode::NodeType   nodeType = context->getNodeType();
 
+            // If the node is not the root, and was found by a step that
+            // matches any ancestor ('/a//b'), it is not a child of the root,
+            // and the search continues with the next such ancestor...
             if (nodeType == XalanNode::DOCUMENT_NODE ||
                 nodeType == XalanNode::DOCUMENT_FRAGMENT_NODE)
             {
                 score = eMatchScoreOther;
-            }
-            else
-            {
-                const OpCodeMapPositionType     prevPos = currentExpression.getNextOpCodePosition(startOpPos);      
-                const OpCodeMapValueType        prevStepType = currentExpression.getOpCodeMapValue(prevPos);
-
-                if (eMatchScoreNone == score  && 
-                    (prevStepType == XPathExpression::eMATCH_ANY_ANCESTOR ||
-                     prevStepType == XPathExpression::eMATCH_ANY_ANCESTOR_WITH_PREDICATE))
-                {
-                    const NodeTester    theTester(
-                                    *this,
-                                    executionContext,
-                                    opPos,
-                                    argLen,
-                                    stepType);
-
-                    while(0 != context)
-                    {
-                        score =
-                            theTester(*context, context->getNodeType());
-
-                        if(eMatchScoreNone != score)
-                            break;
-
-                        context = DOMServices::getParentOfNode(*context);
-                    }
-                }
             }
         }
         break;
